@@ -329,7 +329,10 @@ def rule_range_parser(ctx, F):
     src, chain = outer.chain()
     problems = []
     names = [c.rsplit("::", 1)[-1] for c in chain]
-    if any(n in ("rev", "skip", "take", "filter", "step_by", "rsplit", "splitn", "rsplitn") for n in names):
+    pipeline = "filter_map" in names and "flatten" in names
+    if any(n in ("rev", "skip", "take", "filter", "step_by", "rsplit", "splitn", "rsplitn", "take_while", "skip_while", "map_while") for n in names):
+        problems.append(f"token iteration goes through {names}")
+    elif pipeline and [n for n in names if n not in ("deref", "into_iter", "as_str")] != ["split", "filter_map", "flatten"]:
         problems.append(f"token iteration goes through {names}")
     # split(",") of replace(" ", "") of the parameter
     split_call = None
@@ -345,7 +348,23 @@ def rule_range_parser(ctx, F):
                 and P.strip(base[2][1]) in (("str", " "), ("char", 32)) and P.strip(base[2][2]) == ("str", "")):
             problems.append(f"the split text is not `s.replace(\" \", \"\")`: {P.show(base)[:80]}")
     parse_calls = [bi for bi, t_ in fn.calls() if I.callee_path(t_) == f"<{TOKEN} as std::str::FromStr>::from_str" and bi in outer.body]
-    if len(parse_calls) != 1 or not L.in_every_iteration(fn, outer, parse_calls[0]):
+    if pipeline:
+        # split(',').filter_map(|piece| Token::from_str(piece).ok()).flatten(): every piece is parsed, the failing ones
+        # are dropped, each token is expanded in place (flatten = its IntoIterator), in order
+        fm = [s_ for s_ in P.walk(outer.iter_term) if s_[0] == "call" and s_[1].rsplit("::", 1)[-1] == "filter_map" and len(s_[2]) == 2]
+        okc = False
+        if len(fm) == 1:
+            clo = P.strip(fm[0][2][1], calls=False)
+            if clo[0] == "agg" and clo[1].startswith("closure:") and clo[1][len("closure:"):] in F.fns:
+                cf = F.fns[clo[1][len("closure:"):]]
+                if not cf.cfg.has_loops() and not any(b["term"]["k"] == "switch" for i_, b in enumerate(cf.blocks) if i_ in cf.cfg.reachable):
+                    r_ = P.strip(P.Prov(cf).local(0), calls=False)
+                    if r_[0] == "call" and r_[1] == "std::result::Result::<T, E>::ok" and len(r_[2]) == 1:
+                        pc = P.strip(r_[2][0], calls=False)
+                        okc = pc[0] == "call" and pc[1] == f"<{TOKEN} as std::str::FromStr>::from_str" and P.strip(pc[2][0]) == ("param", 2)
+        if not okc:
+            problems.append("the filter_map closure is not |piece| HandRangeToken::from_str(piece).ok()")
+    elif len(parse_calls) != 1 or not L.in_every_iteration(fn, outer, parse_calls[0]):
         problems.append("a piece of the text can be skipped before it is parsed as a token (a later duplicate/overlapping token would not apply)")
     # inner: token parse of the item, expansion loop, insert into the map that is returned
     ins = [(bi, t_) for bi, t_ in fn.calls() if t_["callee"].get("name") == "insert" and I.callee_path(t_).startswith("std::collections::HashMap") and bi in fn.cfg.reachable]
@@ -356,7 +375,15 @@ def rule_range_parser(ctx, F):
         if bi not in outer.body:
             problems.append("the insert is outside the token loop")
         inner = [lp for lp in fl if lp is not outer and bi in lp.body]
-        if len(inner) != 1:
+        if pipeline:
+            k, v = P.strip(pr.operand(t_["args"][1])), P.strip(pr.operand(t_["args"][2]))
+            if inner:
+                problems.append("the insert is inside a further loop")
+            if k != ("field", outer.item_term, 0) or v != ("field", outer.item_term, 1):
+                problems.append("the inserted (key, value) is not the expansion's (combo, weight)")
+            if not L.in_every_iteration(fn, outer, bi):
+                problems.append("the insert is conditional")
+        elif len(inner) != 1:
             problems.append("the insert is not inside an expansion loop")
         else:
             isrc, ich = inner[0].chain()
